@@ -456,6 +456,7 @@ type GenCfg struct {
 	SelfLead       bool // the script starts with a send whose source is also its destination (one of the main send's source accounts)
 	SmallPool  bool // only three account names: repetition within one source becomes the norm
 	NoWorldVars  bool // account variables are never bound to "world"
+	OutOfRangeLits bool // number literals one past the ends of the int range (parse error on the pinned tree: F-D10)
 	WorldSub     bool // some mentions of @world are look-alikes: @world:fees, @worldwide (ordinary accounts)
 	NumberSpellings bool // number literals with leading zeros / explicit minus zero (parser properties)
 	CallWeight   int  // weight of set_tx_meta / set_account_meta statements (default 18, sends weigh 70)
@@ -539,8 +540,8 @@ func (g *Gen) freshName() string {
 
 func (g *Gen) account() string {
 	if g.r.Intn(1000) < g.cfg.WorldProb {
-		if g.cfg.WorldSub && g.r.Chance(1, 3) {
-			return g.r.Pick([]string{"world:fees", "world:a", "worldwide", "users:world"}) // NOT the world account
+		if g.cfg.WorldSub && g.r.Chance(1, 2) {
+			return g.r.Pick([]string{"world:fees", "world:a", "worldwide", "users:world", "World", "WORLD", "wOrld", "World", "WORLD"}) // NOT the world account
 		}
 		return "world"
 	}
@@ -761,10 +762,14 @@ func (g *Gen) numberLit() *GExpr {
 	if !n.IsInt64() {
 		n = bi(int64(g.r.Intn(1000)))
 	}
-	if g.r.Chance(1, 40) {
+	if g.r.Chance(1, 40) || (g.cfg.OutOfRangeLits && g.r.Chance(1, 12)) {
 		// the ends of the int range, and their neighbours
 		n = new(big.Int).Set([]*big.Int{new(big.Int).Sub(pow2(63), bi(1)), new(big.Int).Neg(pow2(63)), new(big.Int).Sub(pow2(63), bi(2)),
 			new(big.Int).Add(new(big.Int).Neg(pow2(63)), bi(1)), pow2(62), pow2(32)}[g.r.Intn(6)])
+		if g.cfg.OutOfRangeLits && g.r.Chance(1, 3) {
+			// one past the end: reported as a parse error (finding F-D10), never silently saturated
+			n = new(big.Int).Set([]*big.Int{pow2(63), new(big.Int).Sub(new(big.Int).Neg(pow2(63)), bi(1)), new(big.Int).Add(pow2(63), bi(int64(g.r.Intn(1000))))}[g.r.Intn(3)])
+		}
 	}
 	e := &GExpr{Kind: XNumber, N: n}
 	if g.cfg.NumberSpellings && g.r.Chance(1, 5) {
